@@ -1128,9 +1128,9 @@ def predict_relations(sess, rng, count, kinds=KINDS):
         if rng.random() < 0.3:
             # the ladders start from an exact coincidence (ordinal ties between single players above all: there a decision
             # taken by comparing rating objects flips with the first step)
-            if rng.random() < 0.5:
+            if rng.random() < 0.5 and 19.0 * beta >= 30.0:      # (the ladder's top is 20 beta: the twins must lie below it)
                 vals = [[v] for v in rng.sample([(30.0, 10.0), (15.0, 5.0), (24.0, 8.0), (7.5, 2.5)], rng.choice([2, 2, 3]))]
-            else:
+            elif 19.0 * beta >= 45.0:
                 coincide(rng, vals, 0.0)
             shape = [len(t) for t in vals]
             n = len(shape)
